@@ -21,7 +21,7 @@ RULE = (
     "Dec values {+-pi/2,+-(pi/2-ulp),+-(pi/2-1e-9),+-1e-9,+-1e-16,0,2 generic}: all points, all ordered "
     "pairs; generic lattice 128x64 (irrational offsets, low digits moved by VERIF_SEED) with exact antipode "
     "and near-antipodes at 1e-12,1e-9,1e-6; distance alphabet incl. 0, denormal, pi-ulp, pi; all point "
-    "sets of size 1-3 of a 12-point alphabet, weighted/unweighted; means of 2^20-1 and 2^20+3 (| 2^21+5, 3*2^20+1) points in two uneven clusters; histories {to_3d, distance, mean} -> in-place edit through {adopted buffer, .data, sliced views} -> {to_3d, distance, mean} equal to a fresh object of the current values. Bounds: |distance error| <= min(1e-7, "
+    "sets of size 1-3 of a 15-point alphabet (3 points with RA outside [0,2pi)), weighted/unweighted; means of 2^20-1 and 2^20+3 (| 2^21+5, 3*2^20+1) points in two uneven clusters; histories {to_3d, distance, mean} -> in-place edit through {adopted buffer, .data, sliced views} -> {to_3d, distance, mean} equal to a fresh object of the current values. Bounds: |distance error| <= min(1e-7, "
     "1e-15*(1+2/(pi-theta))) (conditioning of the chord formula), never raises; round trips within 1e-7 (1e-12 away from RA=0/pi singular "
     "conditioning), RA in [0,2pi); unit norm 4e-16; conversions monotone. Non-trivial: a pair/point "
     "involving a special value or an antipode. One case = one block of pairs (vectorised)."
@@ -64,7 +64,7 @@ def cases(tier, seed):
     out.append(dict(part="roundtrip", seed=seed))
     out.append(dict(part="chord"))
     out.append(dict(part="from3d"))
-    pts12 = list(range(12))
+    pts12 = list(range(15))
     for k in (1, 2, 3):
         for combo in itertools.combinations(pts12, k):
             out.append(dict(part="mean", idx=list(combo)))
@@ -292,7 +292,9 @@ def run_from3d(case):
 
 
 MEAN_POINTS = [(0.0, 0.0), (1.234567, 0.7), (4.7654321, -1.0), (0.3, PI / 2), (2.0, -PI / 2), (PI, 0.0),
-               (2 * PI - 1e-9, 1e-9), (1e-9, -1e-9), (PI / 2, 0.7), (3 * PI / 2, 0.7), (0.3, 0.7), (0.3 + 1e-6, 0.7)]
+               (2 * PI - 1e-9, 1e-9), (1e-9, -1e-9), (PI / 2, 0.7), (3 * PI / 2, 0.7), (0.3, 0.7), (0.3 + 1e-6, 0.7),
+               # right ascensions outside [0, 2 pi): the same points as their wrapped values, means are reported in range
+               (-0.5, 0.3), (2 * PI, -0.2), (7.0, 0.1)]
 
 
 def run_mean(case):
@@ -317,8 +319,9 @@ def run_mean(case):
             continue
         s = float(ref.sep(era, edec, got.ra[0], got.dec[0]))
         # arccos-based RA: conditioning sqrt(eps) when the mean lies on the RA=0/pi meridian
+        # (continuous bound: an error eps in x/r moves RA by eps/|sin RA|; 1e-7 is the sqrt(eps) floor on the meridian)
         on_meridian = abs(math.sin(float(era))) * math.cos(float(edec)) < 1e-3
-        lim = 1e-7 if on_meridian else 1e-14 / length
+        lim = 1e-7 if on_meridian else min(1e-7, (1e-14 + 4e-16 / abs(math.sin(float(era)))) / length)
         if not s <= lim:
             v.append(viol(f"C14/mean/inaccurate/{'meridian' if on_meridian else 'generic'}",
                           f"mean of {pts.tolist()} (weights {None if weights is None else weights.tolist()}) "
